@@ -69,8 +69,198 @@ def first_foreign(cs):
     return None
 
 
+# ---------------------------------------------------------------- docenc tool level
+def gen_docs(c, delim):
+    """document sequences: structured mostly-valid + adversarial (CR, blank-looking lines)"""
+    rng = c.rng
+    alphabet = [b"a", b"b", b"\r", b" ", b"\xc3\xa9", b"\xff", b"="]
+    if delim == 0:
+        alphabet += [b"\n", b"\n\n"]
+    else:
+        alphabet += [b"\x00"]
+    cases = []
+    n_cases = 60 if c.tier == "quick" else 600
+    for _ in range(n_cases):
+        docs = []
+        for _ in range(rng.randrange(0, 5)):
+            if delim == 10:
+                lines = []
+                for _ in range(rng.randrange(0, 4)):
+                    l = b"".join(rng.choice(alphabet) for _ in range(rng.randrange(1, 5)))
+                    lines.append(l)
+                docs.append(b"".join(l + b"\n" for l in lines))
+            else:
+                docs.append(b"".join(rng.choice(alphabet) for _ in range(rng.randrange(0, 6))))
+        cases.append(docs)
+    # documents larger than internal buffers / block sizes (lengths around powers of two and multiples of 3)
+    sizes = [4094, 4095, 4096, 4097, 4098, 8191, 8193, 12289] + ([65537, 1 << 20] if c.tier == "thorough" else [40000])
+    for n in sizes:
+        body = bytes(rng.choice(b"abcdefgh \xc3\xa9") for _ in range(n))
+        if delim == 10:
+            # newline-terminated lines of <= 100 bytes, total length exactly n
+            out = bytearray()
+            while len(out) < n:
+                k = min(rng.randrange(1, 100), n - len(out) - 1)
+                out += body[len(out):len(out) + k].replace(b"\n", b"x") + b"\n"
+            cases.append([bytes(out[:n - 1]) + b"\n", b"tail\n"])
+        else:
+            cases.append([body, b"tail"])
+    # targeted: CR at end of line, a line that is only CR, CR before separator, empty docs, many docs
+    if delim == 10:
+        cases += [[b"a\r\nb\n"], [b"x\n\r\ny\n"], [b"\r\n"], [b"", b"a\n", b""], [b"a\n"] * 7, [b""], []]
+    else:
+        cases += [[b"abc\r"], [b"\r"], [b"", b"a", b""], [b"a\nb\n\nc"], [b""], []]
+    return cases
+
+
+def docenc_tool(c, drv):
+    exe = repo_bin("docenc")
+    rng = c.rng
+    import base64 as b64
+    model_lines, runs = [], []
+    for delim in (10, 0):
+        flag = ["-0"] if delim == 0 else []
+        for docs in gen_docs(c, delim):
+            b64file = b"".join(b64.b64encode(d) + b"\n" for d in docs)
+            # (1) property oracle: docenc -d | docenc reproduces the base64 file
+            st1, out1, err1 = run_tool([exe, "-d", "-q"] + flag, b64file, timeout=20)
+            st2, out2, err2 = run_tool([exe] + flag, out1, timeout=20) if st1 == 0 else (None, b"", b"")
+            c.count(("docenc-rt", delim, b64file), nontrivial=len(docs) > 0, bucket="docenc-roundtrip/delim=%d" % delim)
+            if len(c.cov["samples"]) < 5:
+                c.sample({"op": "docenc -d | docenc", "delim": delim, "docs": [repr(d) for d in docs]})
+            if st1 != 0 or st2 != 0 or out2 != b64file:
+                c.violation("docenc-roundtrip: docenc -d %s| docenc %sdoes not reproduce documents %r: got %r (status %s/%s)" % (
+                    "-0 " if delim == 0 else "", "-0 " if delim == 0 else "", docs, out2[:200], st1, st2),
+                    {"op": "docenc-roundtrip", "delim": delim, "b64_input_hex": hexs(b64file), "output_hex": hexs(out2), "status": [st1, st2],
+                     "how": "printf <b64 input> | docenc -d -q %s| docenc %s" % (" ".join(flag), " ".join(flag))})
+            # (2) correspondence with the model, decode and encode separately
+            small = len(b64file) <= 9000   # the extracted model's list `rev` is quadratic per record
+            if small:
+                model_lines.append("TD %d - %s" % (delim, hexs(b64file)))
+                runs.append(([exe, "-d", "-q"] + flag, b64file))
+                model_lines.append("TE %d - %s" % (delim, hexs(out1)))
+                runs.append(([exe] + flag, out1))
+            # (3) index selection
+            n = len(docs)
+            for _ in range(2):
+                k = rng.randrange(1, 4)
+                idx = [rng.randrange(1, n + 3) for _ in range(k)]
+                if rng.random() < 0.15:
+                    idx.append(0)
+                args = []
+                want = set()
+                for i in idx:
+                    if rng.random() < 0.3 and i > 0:
+                        j = i + rng.randrange(0, 3)
+                        args.append("%d-%d" % (i, j))
+                        want |= set(range(i, j + 1))
+                    else:
+                        args.append(str(i))
+                        want.add(i)
+                flat = []
+                for a in args:
+                    if "-" in a:
+                        lo, hi = a.split("-")
+                        flat += list(range(int(lo), int(hi) + 1))
+                    else:
+                        flat.append(int(a))
+                st, out, err = run_tool([exe, "-d", "-q"] + flag + args, b64file, timeout=20)
+                c.count(("docenc-idx", delim, tuple(args), b64file), nontrivial=n > 0, bucket="docenc-index/delim=%d" % delim)
+                if small:
+                    model_lines.append("TD %d %s %s" % (delim, ",".join(map(str, flat)), hexs(b64file)))
+                    runs.append(([exe, "-d", "-q"] + flag + args, b64file))
+                if 0 in want:
+                    continue    # index 0 is rejected with a usage error (model says USAGE)
+                # encode side: docenc -d | docenc IDX keeps exactly the listed base64 lines
+                if st1 == 0:
+                    ste, oute, erre = run_tool([exe] + flag + args, out1, timeout=20)
+                    if small:
+                        model_lines.append("TE %d %s %s" % (delim, ",".join(map(str, flat)), hexs(out1)))
+                        runs.append(([exe] + flag + args, out1))
+                    blines = b64file.split(b"\n")[:-1]
+                    expect_e = b"".join(blines[i - 1] + b"\n" for i in sorted(want) if 1 <= i <= n)
+                    c.count(("docenc-idx-enc", delim, tuple(args), b64file), nontrivial=n > 0, bucket="docenc-index-encode/delim=%d" % delim)
+                    if 0 not in want and (ste != 0 or oute != expect_e):
+                        c.violation("docenc-index-encode: docenc %s on %d documents printed %r, expected base64 of documents %s = %r" % (
+                            " ".join(args), n, oute[:200], sorted(want), expect_e[:200]),
+                            {"op": "docenc-index-encode", "delim": delim, "args": args, "input_hex": hexs(out1), "output_hex": hexs(oute), "expected_hex": hexs(expect_e), "status": ste})
+                expect = b"".join(docs[i - 1] + bytes([delim]) for i in sorted(want) if 1 <= i <= n)
+                if st != 0 or out != expect:
+                    c.violation("docenc-index: docenc -d %s selected %r, expected documents %s = %r" % (" ".join(args), out[:200], sorted(want), expect[:200]),
+                                {"op": "docenc-index", "delim": delim, "args": args, "b64_input_hex": hexs(b64file), "output_hex": hexs(out), "expected_hex": hexs(expect), "status": st})
+    # malformed stream for the correspondence only: arbitrary bytes into both modes
+    for _ in range(40 if c.tier == "quick" else 400):
+        raw = bytes(rng.choice(b"aQ=\n\r\x00\x7f\xff \n\n") for _ in range(rng.randrange(0, 14)))
+        d = rng.choice((10, 0))
+        flag = ["-0"] if d == 0 else []
+        model_lines.append("TD %d - %s" % (d, hexs(raw)))
+        runs.append(([exe, "-d", "-q"] + flag, raw))
+        model_lines.append("TE %d - %s" % (d, hexs(raw)))
+        runs.append(([exe] + flag, raw))
+        c.count(("docenc-raw", d, raw), nontrivial=len(raw) > 0, bucket="docenc-malformed")
+    if drv is None:
+        return
+    rc, mout, err = run_lines(drv, model_lines)
+    if len(mout) != len(model_lines):
+        c.broken.append("correspondence docenc: driver failed rc=%s %s" % (rc, err[-300:]))
+        return
+    dis = 0
+    for ml, mo, (argv, stdin) in zip(model_lines, mout, runs):
+        st, out, err = run_tool(argv, stdin, timeout=20)
+        if st == 0:
+            io = "OK " + hexs(out)
+        elif st == -6:
+            io = "ABORT"
+        elif st == 1:
+            io = "USAGE"
+        else:
+            io = "STATUS %s" % st
+        c.cov["traces_validated_against_impl"] += 1
+        if io != mo:
+            dis += 1
+            if dis == 1:
+                c.broken.append("correspondence docenc model vs bin/docenc: case %r (argv %s): model=%s impl=%s" % (ml[:120], " ".join(argv[1:]), mo[:120], io[:120]))
+
+
+def replay(c):
+    """bin/check C09 --replay file: re-run the recorded input on the current tree."""
+    import json
+    body = json.load(open(c.replay))
+    r = body.get("replay") or {}
+    ok, blog = build_repo(["hx_base64", "docenc"])
+    print("replaying:", body.get("what", "")[:300])
+    if r.get("op") in ("encode", "decode"):
+        line = ("E " if r["op"] == "encode" else "D ") + r["input_hex"]
+        rc, out, err = run_lines(hx_bin("hx_base64"), [line])
+        print("  hx_base64 %s -> %s (recorded: %s)" % (line, out, r.get("impl")))
+        bad = out and out[0] == r.get("impl")
+    elif r.get("op") == "docenc-roundtrip":
+        flag = ["-0"] if r["delim"] == 0 else []
+        inp = bytes.fromhex(r["b64_input_hex"])
+        st1, o1, _ = run_tool([repo_bin("docenc"), "-d", "-q"] + flag, inp)
+        st2, o2, _ = run_tool([repo_bin("docenc")] + flag, o1)
+        print("  docenc -d | docenc: %r -> %r" % (inp, o2))
+        bad = o2 != inp
+    elif r.get("op") == "docenc-index":
+        flag = ["-0"] if r["delim"] == 0 else []
+        inp = bytes.fromhex(r["b64_input_hex"])
+        st, o, _ = run_tool([repo_bin("docenc"), "-d", "-q"] + flag + r["args"], inp)
+        print("  docenc -d %s: %r expected %r" % (" ".join(r["args"]), o, bytes.fromhex(r["expected_hex"])))
+        bad = o != bytes.fromhex(r["expected_hex"])
+    else:
+        print("  (no concrete input recorded; broken obligations: %s)" % body.get("broken_obligations"))
+        bad = True
+    if bad:
+        print("VIOLATION property=C09 replay=%s" % c.replay)
+        return 1
+    print("replay no longer fails")
+    return 0
+
+
 def main(argv):
     c = Check("C09", argv)
+    if c.replay:
+        return replay(c)
     ok, blog = build_repo(["hx_base64", "docenc"])
     if not ok:
         c.broken.append("build of /repo working tree failed: " + blog[-800:])
@@ -124,8 +314,11 @@ def main(argv):
                     if o != "OK " + hexs(raw):
                         c.violation("roundtrip: decode(%r) gave %s expected %s" % (b, o, hexs(raw)),
                                     {"op": "decode", "input_hex": hexs(b), "impl": o, "expected_hex": hexs(raw)})
+    docenc_tool(c, drv)
+    from coqchk import thorough_coqchk
+    thorough_coqchk(c)
     return c.finish(level="proof",
-                    rule="encode: all byte strings of length 0-2 exhaustively + random/boundary strings to 4 KiB; decode: canonical encodings with 0..2 pads removed, every byte value inserted/substituted at every offset of encodings of 0-6 bytes, two-byte corruptions at a block boundary, pad-only strings, random bytes. distinct = distinct non-empty inputs",
+                    rule="encode: all byte strings of length 0-2 exhaustively + random/boundary strings to 4 KiB; decode: canonical encodings with 0..2 pads removed, every byte value inserted/substituted at every offset of encodings of 0-6 bytes, two-byte corruptions at a block boundary, pad-only strings, random bytes; docenc: random and targeted document sequences (CR at line ends, CR-only lines, empty documents, NUL/newline content) for both separators through `docenc -d | docenc`, index lists with duplicates, overlapping ranges, out-of-range and 0, arbitrary bytes into both modes (model correspondence only). distinct = distinct non-empty inputs",
                     assumptions=["util::Exception from base64_decode = error; std::length_error from reserve() = error",
                                  "bytes are modelled as Z in [0,256); `int val` as 32-bit two's complement wrap (g++ behaviour)"])
 
